@@ -1,8 +1,9 @@
 # fam_ebppscodec.py — EBPPS sketch image: Coq codec model coq/EbppsCodecDefs.v (enc / dec_bytes / dec_stream; theorems in
 # Properties_C09_ebpps.v, Properties_C10_ebpps.v, Properties_C11_ebpps.v, old reader behaviour in Regression_ebppscodec.v)
 # against ebpps_sketch<int64_t>::serialize / deserialize(bytes) / deserialize(istream) through harness/drv_ebppscodec.cpp.
-# The model describes the readers as repaired by fixes/11_ebpps_reader_checks.patch (stream state tested before the fields
-# are used; C rejected unless it is below 2^32 and not NaN before it is converted to the 32-bit item count).
+# The model describes the readers as repaired by three reader patches (stream state tested before the fields
+# are used; C rejected unless it is below 2^32 and not NaN before it is converted to the 32-bit item count; a non-empty image with
+# C == 0.0 rejected: fixes/11_ebpps_c_range.patch, 11_ebpps_stream_state.patch, 11_ebpps_zero_c_image.patch, in this order).
 #
 # Mutations confirmed caught / harmless rewrites tolerated (scratch worktree, VERIF_REPO): see MUTATIONS at the end.
 import struct
@@ -129,6 +130,8 @@ NPRE = 48          # the five documented preamble longs and C
 
 def gen_c11(rng, tier):
     cases = []
+    # the smallest trigger of the zero-C defect (fixes/11_ebpps_zero_c_image.patch): C = 2.0 with its top byte cleared
+    cases.append(dict(id='ebzero', ops=[build_op(0, 5, [(1, 2.0), (2, 2.0)]), [5, 0, 0, -1, 47, 0, 0], [5, 0, 1, -1, 47, 0, 0]], tags=['corrupt', 'fixed'], kind='corrupt'))
     sts = states(rng, tier)
     if tier == 'quick':
         sts = sts[:4] + rng.sample(sts[4:17], 7) + sts[17:20]
@@ -176,6 +179,16 @@ def oracle(case, irecs, mrecs):
                 fails.append(dict(sig='ebpps_bytes_stream_size_header',
                                   what='serialize(bytes) / serialize(stream) / get_serialized_size_bytes / serialize(header) disagree (%s)' % R, op_index=i))
             continue
+        if R and R[0] == 1 and op[0] in (3, 4, 5):
+            cb = R[7] if (op[0] == 3 or (op[0] == 5 and op[2] == 0)) else R[8]
+            c = bitsd(cb)
+            rs = R[1] if (op[0] == 3 or (op[0] == 5 and op[2] == 0)) else R[2]
+            if rs == 2:
+                fails.append(dict(sig='ebpps_accepted_unserializable', what='an accepted image yields a sketch whose serialize() throws (n = %d, C bits %x): with a header of 8 or more '
+                                  'bytes the same call writes past its buffer' % (R[3] if rs == R[1] else R[4], cb), op_index=i))
+            if c != c or c < 0 or c >= 2 ** 32:
+                fails.append(dict(sig='ebpps_invalid_c_accepted', what='an image whose C (%r, bits %x) is not a valid item count was accepted and a sketch with that C returned'
+                                  % (c, cb), op_index=i))
         if op[0] == 5 and state:
             path, cut, pos = op[2], op[3], op[4]
             L = img_len(state)
@@ -225,5 +238,17 @@ RULE_C11 = ('every strict prefix of the image of each state on both reader paths
             'from a header field (k of an empty image, floor(C) items) are not replayed except once (registered finding ebpps_corrupt_c_allocation); non-trivial = every case')
 
 MUTATIONS = '''
- (filled in by the mutation runs, see the report)
+ (scratch worktree = /repo + the three fixes/11_ebpps_*.patch, VERIF_REPO, quick tier, seed 1; C09/C10/C11 restricted to this family)
+ CM1 both writers emit rho before wt_max (readers unchanged)                       C09 C10 C11: ebpps_roundtrip + image != Coq encoder
+ CM2 deserialize(bytes): ensure_minimum_memory(size, (prelongs - 1) << 3)          C11: ASan heap-buffer-overflow on prefixes 32..39
+ CM3 deserialize(bytes): HAS_PARTIAL_ITEM consistency check dropped                C11: model decoder rejects the corrupted flags byte, the code accepts
+ CM4 get_serialized_size_bytes 8 too large                                         C09 C10 C11: ebpps_bytes_stream_size_header
+ CM5 both sample writers emit the partial item before the full items               C09 C10 C11: ebpps_roundtrip + image != Coq encoder
+ CM6 check_preamble_longs: the non-empty branch no longer checks the value         C11: ASan on a corrupted byte 0 (size check uses the corrupted count)
+ CM7 stream reader skips the family / serial version check                         C11: model decoder rejects corrupted bytes 1, 2; the code accepts
+ CM8 sample stream reader: C < 0.0 check dropped                                   C11: ebpps_invalid_c_accepted
+ on /repo before the reader fixes: ebpps_invalid_c_accepted (C = NaN, inf, 1.4e304 accepted after corrupting bytes 46/47), ebpps_accepted_unserializable (case ebzero)
+ + model/implementation differences
+ harmless CH1 (header checks of the bytes reader in another order), CH2 (has_partial computed as c != floor(c)), CH3 (flags computed by one
+ expression, two independent declarations swapped in serialize): exit 0 on C09, C10 and C11
 '''
